@@ -16,6 +16,15 @@ Tie to the source (magicbot/magic_tunable.py as it is in $VERIF_REPO now):
     owner classes whose instances can be FALSY (__len__ / __bool__ / a list
     subclass), the truthiness changing inside the history;
     every observation is compared with Model.xrun inside Coq;
+  * the ENVIRONMENT of a history (Model section 13, compared with Model.grun): the NT clock is the HAL
+    clock, PAUSED and stepped in 40% of the histories (robot tests: everything between two steps carries
+    one timestamp); clients that stamp their updates themselves (the same timestamp as the value they
+    replace / now / older = stale); topics only clients write, where the timestamps themselves are
+    compared with the model's account of ntcore; components that are magicbot StateMachines (the
+    library adds current_state, <state>_duration, state_names, state_descriptions; the last two are
+    assigned anew on the class by EVERY instance construction); instances constructed and set up one
+    after another; class attributes assigned between two setups (`Cls.x = tunable(..)`: replaced,
+    added, a plain value in its place);
   * MagicRobot binds components / autonomous modes / itself (one real robot in a
     subprocess), keys compared with Model.owner_key inside Coq;
   * @feedback key/type derivation (reused by C11): feedback_key_cases(ctx).
@@ -1287,11 +1296,16 @@ def gen_case(r, tag):
                 for a in ("state_names", "state_descriptions"):
                     ver[insts[i]][a] = ver[insts[i]].get(a, 0) + 1
 
+    readers = {}                                    # key -> [(instance, attr)] bound to it
+
     def do_setup(i, owner):
         need(i)
         ops.append(["setup", i, owner[0], owner[1]])
         bound[i] = owner
         bver[i] = {a: ver[insts[i]].get(a, 0) for a in cur[insts[i]]}
+        for d in cur[insts[i]].values():
+            if not d["attr"].startswith("_"):
+                readers.setdefault(doc_key(owner[0], owner[1], d["subtable"], d["attr"]), []).append((i, d["attr"]))
 
     def pick_decl(i):
         """a tunable of instance i's class; mostly one the instance is bound to as the class has it now"""
@@ -1452,6 +1466,8 @@ def gen_case(r, tag):
         elif k < 0.78 and known_keys:
             key, ts, kind = r.choice(known_keys)
             ops.append(["ntw", key, ts, gen_value(r, kind)] + gen_stamp())
+            if key in readers and r.random() < 0.35:
+                ops.append(["pyr"] + list(r.choice(readers[key])))   # the dashboard changes a value, the component reads it next
         elif k < 0.95 and known_keys:
             key, ts, kind = r.choice(known_keys)
             if r.random() < 0.1:                    # a near miss: nothing may live there
